@@ -1049,7 +1049,9 @@ class LieTensor(Tensor):
         r'''
         See :meth:`pypose.add`
         '''
-        return self.clone().add_(other = alpha * other)
+        other = alpha * other
+        shape = torch.broadcast_shapes(self.shape[:-1], other.shape[:-1]) + self.shape[-1:]
+        return self.expand(shape).clone().add_(other = other)
 
     def add_(self, other, alpha=1):
         r'''
